@@ -108,8 +108,24 @@ func (s *Server) Port() string {
 }
 
 func (s *Server) listenAndServe(addr string, handler http.Handler, context hap.Context) error {
-	server := http.Server{Addr: addr, Handler: handler}
+	server := http.Server{Addr: addr, Handler: handler, ConnState: connState}
 	return server.Serve(s)
+}
+
+// connState tells a connection when a request is handled on it, so that event
+// notifications are not written in the middle of a response.
+func connState(c net.Conn, state http.ConnState) {
+	con, ok := c.(*hap.Connection)
+	if !ok {
+		return
+	}
+
+	switch state {
+	case http.StateActive:
+		con.SetBusy(true)
+	case http.StateIdle:
+		con.SetBusy(false)
+	}
 }
 
 func (s *Server) addrString() string {
